@@ -1,11 +1,361 @@
 /-
-  C20 — rewrite / redirect / alias / vhost rules map requests as documented.
-  Property theorems only (helper lemmas live in LtVerif/Proofs/KeyValue.lean).
+  C20 — url.rewrite*, url.redirect, alias.url and the virtual-host modules map a request as
+  their documented rules say.  Property theorems only (helper lemmas live in
+  LtVerif/Proofs/KeyValue.lean).  The model (Model/KeyValue.lean, Model/BurlAppend.lean) is
+  tied to keyvalue.c / burl.c / base64.c / mod_rewrite.c / mod_redirect.c / mod_alias.c /
+  mod_simple_vhost.c / mod_evhost.c by the h_keyvalue correspondence; the modifier -> flag map
+  and the base64url tables are regenerated from the C on every run (Extracted/KvModifiers.lean).
 -/
-import LtVerif.Model.KeyValue
+import LtVerif.Proofs.KeyValue
 namespace LtVerif.C20
 open LtVerif B
 
-theorem c20_placeholder : redirectStatus 0 true false = 301 := by decide
+/-! ## first matching rule -/
+
+/-- pcre_keyvalue_buffer_process(): the first rule (in configuration order) whose pattern
+    matches is the one that is applied — its template is expanded with its own captures; a
+    blank template stops the search without a substitution; rules behind it are not
+    consulted; if no pattern matches, nothing is applied. -/
+theorem c20_first_match (cond : Option Caps) (url : UrlParts) (subject : Bytes)
+    (pre post : List (Bytes × MatchRes)) (tmpl : Bytes) (ov : OVec)
+    (hpre : ∀ r ∈ pre, r.2 = .nomatch) :
+    process cond url subject (pre ++ (tmpl, .matched ov) :: post) =
+      (if tmpl.isEmpty then .goOn (some pre.length)
+       else .finished pre.length
+              (subst { rule := { subject := subject, ovec := ov }, cond := cond, url := url } tmpl)) ∧
+    process cond url subject pre = .goOn none := by
+  constructor
+  · unfold process
+    rw [processFrom_skip cond url subject pre _ 0 hpre]
+    simp [processFrom]
+  · unfold process
+    have := processFrom_skip cond url subject pre [] 0 hpre
+    simp only [List.append_nil] at this
+    rw [this]; simp [processFrom]
+
+example : process none ⟨none, none, 80, ofString "/b/x", none⟩ (ofString "/b/x")
+    [(ofString "/A/$1", .nomatch), (ofString "/B/$1", .matched [some (0, 4), some (3, 4)]),
+     (ofString "/C/$1", .matched [some (0, 4), some (1, 4)])] = .finished 1 (ofString "/B/x") := by decide
+
+/-! ## modifiers -/
+
+/-- the documented modifiers of `${...}` and the recoding each one is documented to select -/
+def documentedModifiers : List (Bytes × Nat) :=
+  [(ofString "esc:", Extracted.burlEncodeAll), (ofString "escape:", Extracted.burlEncodeAll),
+   (ofString "escnde:", Extracted.burlEncodeNde), (ofString "escpsnde:", Extracted.burlEncodePsnde),
+   (ofString "noesc:", Extracted.burlEncodeNone), (ofString "noescape:", Extracted.burlEncodeNone),
+   (ofString "tolower:", Extracted.burlToLower), (ofString "toupper:", Extracted.burlToUpper),
+   (ofString "encb64u:", Extracted.burlEncodeB64u), (ofString "decb64u:", Extracted.burlDecodeB64u)]
+
+/-- pcre_keyvalue_buffer_subst_ext(): every documented modifier name, at any position of the
+    modifier list of a `${...}` / `%{...}`, selects exactly the recoding it is named after (and
+    consumes exactly its own name).  The flags OR-ed in by the model are the ones *extracted from
+    the C function*, so a wrong name -> flag mapping in keyvalue.c makes this unprovable. -/
+theorem c20_modifiers_as_named : ∀ m ∈ documentedModifiers,
+    ∀ (env : Env) (sigil : UInt8) (out p : Bytes) (pos fl : Nat),
+      extGo env sigil out (m.1 ++ p) 0 pos fl = extGo env sigil out p 0 (pos + m.1.length) (fl ||| m.2) := by
+  intro m hm env sigil out p pos fl
+  simp only [documentedModifiers, List.mem_cons, List.not_mem_nil, or_false] at hm
+  have e1 : ofString "esc:" = [101, 115, 99, 58] := by decide
+  have e2 : ofString "escape:" = [101, 115, 99, 97, 112, 101, 58] := by decide
+  have e3 : ofString "escnde:" = [101, 115, 99, 110, 100, 101, 58] := by decide
+  have e4 : ofString "escpsnde:" = [101, 115, 99, 112, 115, 110, 100, 101, 58] := by decide
+  have e5 : ofString "noesc:" = [110, 111, 101, 115, 99, 58] := by decide
+  have e6 : ofString "noescape:" = [110, 111, 101, 115, 99, 97, 112, 101, 58] := by decide
+  have e7 : ofString "tolower:" = [116, 111, 108, 111, 119, 101, 114, 58] := by decide
+  have e8 : ofString "toupper:" = [116, 111, 117, 112, 112, 101, 114, 58] := by decide
+  have e9 : ofString "encb64u:" = [101, 110, 99, 98, 54, 52, 117, 58] := by decide
+  have e10 : ofString "decb64u:" = [100, 101, 99, 98, 54, 52, 117, 58] := by decide
+  rcases hm with h | h | h | h | h | h | h | h | h | h <;> subst h <;>
+    simp only [e1, e2, e3, e4, e5, e6, e7, e8, e9, e10] <;>
+    simp [extGo, startsWith, sEsc, sApe, sNde, sPsnde, sNo, sEscC, sEscapeC, sTo, sLowerC, sUpperC,
+          sUrlDot, sQsa, sEncB64, sDecB64, ofString, isDigit, rbrace, colon,
+          Extracted.kvMod_esc, Extracted.kvMod_escape, Extracted.kvMod_escnde, Extracted.kvMod_escpsnde,
+          Extracted.kvMod_noesc, Extracted.kvMod_noescape, Extracted.kvMod_tolower, Extracted.kvMod_toupper,
+          Extracted.kvMod_encb64u, Extracted.kvMod_decb64u,
+          Extracted.burlEncodeAll, Extracted.burlEncodeNde, Extracted.burlEncodePsnde,
+          Extracted.burlEncodeNone, Extracted.burlToLower, Extracted.burlToUpper,
+          Extracted.burlEncodeB64u, Extracted.burlDecodeB64u]
+
+/-- `${toupper:noesc:1}` upper-cases the capture, `${tolower:noesc:1}` lower-cases it -/
+example : subst ⟨⟨ofString "/Foo", [some (0, 4), some (1, 4)]⟩, none, ⟨none, none, 80, ofString "/Foo", none⟩⟩
+    (ofString "/${toupper:noesc:1}/${tolower:noesc:1}") = ofString "/FOO/foo" := by decide
+
+/-- `${noesc:…}`: the string is inserted unchanged -/
+theorem c20_noesc_identity (s look : Bytes) : burlAppend Extracted.burlEncodeNone s look = s := by
+  unfold burlAppend
+  by_cases h : s = []
+  · simp [h]
+  · simp [h, burlEncode, flagSet, Extracted.burlEncodeNone, Extracted.burlToLower, Extracted.burlToUpper]
+
+/-- `${esc:…}`: the inserted string consists of unreserved characters and %HH triplets only -/
+theorem c20_esc_output_safe (s look : Bytes) : PctSafe (burlAppend Extracted.burlEncodeAll s look) := by
+  unfold burlAppend
+  by_cases h : s = []
+  · simp [h]; exact .nil
+  · simp only [h, if_false]
+    simp only [burlEncode, flagSet, Extracted.burlEncodeAll, Extracted.burlEncodeNone,
+               Extracted.burlToLower, Extracted.burlToUpper]
+    simpa using encAll_safe s
+
+example : burlAppend Extracted.burlEncodeAll (ofString "a b/%41") [] = ofString "a%20b%2F%2541" := by decide
+
+/-- `${tolower:…}` (with any encoder): what is inserted is the encoder's output with only the case of
+    ASCII letters changed, and it has no upper-case ASCII letter outside %XX triplets;
+    `${toupper:…}` likewise has no lower-case letter outside %XX triplets. -/
+theorem c20_case_modifiers (flags : Nat) (s look : Bytes) (hs : s ≠ [])
+    (hnul : (0 : UInt8) ∉ burlEncode flags s look) :
+    (flagSet flags Extracted.burlToLower = true →
+        NoUpperOutsidePct (burlAppend flags s look) ∧
+        (burlAppend flags s look).map toLower = (burlEncode flags s look).map toLower) ∧
+    (flagSet flags Extracted.burlToLower = false → flagSet flags Extracted.burlToUpper = true →
+        NoLowerOutsidePct (burlAppend flags s look) ∧
+        (burlAppend flags s look).map toLower = (burlEncode flags s look).map toLower) := by
+  have hf : flags ≠ 0 ∨ flags = 0 := by omega
+  constructor
+  · intro hl
+    have h0 : flags ≠ 0 := by
+      intro e; subst e; simp [flagSet] at hl
+    simp only [burlAppend, hs, h0, if_false, hl, if_true]
+    exact ⟨lowerSkipPct_noUpper _ hnul, lowerSkipPct_caseOnly _ 0⟩
+  · intro hl hu
+    have h0 : flags ≠ 0 := by
+      intro e; subst e; simp [flagSet] at hu
+    simp only [burlAppend, hs, h0, if_false, hl, hu, if_true, Bool.false_eq_true]
+    exact ⟨upperSkipPct_noLower _ hnul, upperSkipPct_caseOnly _ 0⟩
+
+example : burlAppend (Extracted.burlToLower ||| Extracted.burlEncodePsnde) (ofString "/A b/%4A") []
+    = ofString "/a%20b/j" := by decide
+example : burlAppend (Extracted.burlToUpper ||| Extracted.burlEncodeAll) (ofString "a/b") []
+    = ofString "A%2FB" := by decide
+
+/-- `${decb64u:…}` inverts `${encb64u:…}` (base64url without padding, tables taken from base64.c) -/
+theorem c20_b64u_roundtrip (x : Bytes) : b64uDec (b64uEnc x) = x := by
+  simpa [b64uDec] using b64uDecGo_enc x []
+
+example : b64uEnc (ofString "hello") = ofString "aGVsbG8" := by decide
+example : b64uDec (ofString "aGVs!bG8") = [] := by decide
+
+/-! ## literals -/
+
+/-- template text without `$` / `%` is copied verbatim (anywhere in a template) -/
+theorem c20_literals (env : Env) (lit t out : Bytes) (h : ∀ c ∈ lit, c ≠ dollar ∧ c ≠ pct) :
+    substGo env (lit ++ t) 0 out = substGo env t 0 (out ++ lit) ∧ subst env lit = lit := by
+  have h' : ∀ c ∈ lit, isSigil c = false := by
+    intro c hc; simp [isSigil, (h c hc).1, (h c hc).2]
+  constructor
+  · exact substGo_literal env lit t out h'
+  · have := substGo_literal env lit [] [] h'
+    simpa [subst, substGo] using this
+
+/-- `$$` gives `$`, `%%` gives `%`; a `$` / `%` followed by anything but a digit, `{` or itself is
+    literal together with that byte; a `$` / `%` at the very end is literal -/
+theorem c20_escaped_sigils (env : Env) (c d : UInt8) (t out : Bytes) (hc : c = dollar ∨ c = pct)
+    (hd : isDigit d = false) (hb : d ≠ lbrace) :
+    substGo env (c :: d :: t) 0 out = substGo env t 0 (out ++ (if c = d then [c] else [c, d])) ∧
+    substGo env [c] 0 out = out ++ [c] := by
+  have hs : (c = dollar || c = pct) = true := by rcases hc with h | h <;> simp [h]
+  constructor
+  · conv => lhs; unfold substGo
+    simp only [hs, if_true, hb, hd, if_false, Bool.false_eq_true]
+    rw [substGo_skip]; simp
+  · conv => lhs; unfold substGo
+    simp [hs]
+
+example : subst ⟨⟨[], []⟩, none, ⟨none, none, 80, [], none⟩⟩ (ofString "/a$$b%%c%zd$") = ofString "/a$b%c%zd$" := by
+  decide
+
+/-! ## captures -/
+
+/-- `$N` inserts capture N of the matching rule, `%N` capture N of the enclosing condition (nothing
+    if there is no enclosing condition), unmodified -/
+theorem c20_captures (env : Env) (d : UInt8) (t out : Bytes) (hd : isDigit d = true) :
+    substGo env (dollar :: d :: t) 0 out = substGo env t 0 (out ++ (env.rule.get (d.toNat - 48)).1) ∧
+    substGo env (pct :: d :: t) 0 out =
+      substGo env t 0 (out ++ (match env.cond with | some c => (c.get (d.toNat - 48)).1 | none => [])) := by
+  have hb : d ≠ lbrace := by
+    intro e; subst e; simp [isDigit, lbrace] at hd
+  constructor
+  · conv => lhs; unfold substGo
+    simp only [dollar, pct] at *
+    simp [hb, hd, capAppend, burlAppend_zero, substGo_skip, dollar]
+  · conv => lhs; unfold substGo
+    simp only [dollar, pct] at *
+    simp [hb, hd, capAppend, substGo_skip, dollar, pct]
+    cases env.cond with
+    | none => simp
+    | some c => simp [burlAppend_zero]
+
+/-- what "capture N" is: the bytes of the subject between the offsets PCRE2 reported for group N;
+    empty if the group did not take part in the match or does not exist -/
+theorem c20_capture_value (c : Caps) (k : Nat) :
+    (∀ s e, c.ovec[k]? = some (some (s, e)) → (c.get k).1 = (c.subject.drop s).take (e - s)) ∧
+    (c.ovec[k]? = some none → (c.get k).1 = []) ∧
+    (c.ovec.length ≤ k → (c.get k).1 = []) := by
+  refine ⟨?_, ?_, ?_⟩
+  · intro s e h; simp [Caps.get, h]
+  · intro h; simp [Caps.get, h]
+  · intro h
+    have : c.ovec[k]? = none := by simp [h]
+    simp [Caps.get, this]
+
+example : subst ⟨⟨ofString "/foo/bar", [some (0, 8), some (1, 4), none]⟩,
+                 some ⟨ofString "www.example.com", [some (0, 15), some (0, 3)]⟩,
+                 ⟨none, none, 80, ofString "/foo/bar", none⟩⟩
+    (ofString "/$1-$2-$7-%1") = ofString "/foo---www" := by decide
+
+/-- `${N}` (no modifier) inserts capture N with the default recoding, which is the one named
+    escpsnde: percent-encode everything but unreserved characters and '/', keep existing %XX -/
+theorem c20_braced_capture (env : Env) (d : UInt8) (t out : Bytes) (hd : isDigit d = true) :
+    substGo env (dollar :: lbrace :: d :: rbrace :: t) 0 out =
+      substGo env t 0 (out ++ burlAppend Extracted.burlEncodePsnde (env.rule.get (d.toNat - 48)).1
+                                         (env.rule.get (d.toNat - 48)).2) := by
+  rw [substGo_brace env dollar (by decide)]
+  simp only [substExt, extGo, hd, if_true]
+  simp [extNumber, isDigit, rbrace, idxOf?, capAppend, Extracted.kvMod_default,
+        Extracted.burlEncodePsnde, dollar]
+
+/-! ## ${qsa} and ${url.*} -/
+
+/-- `${qsa}` appends the query string of the request: introduced by '?' if the result so far has
+    no '?', by '&' otherwise (nothing if the query string is empty then); nothing at all if the
+    request-target has no query part -/
+theorem c20_qsa (env : Env) (t out : Bytes) (hnul : (0 : UInt8) ∉ out) :
+    substGo env (ofString "${qsa}" ++ t) 0 out =
+      substGo env t 0
+        (match env.url.query with
+         | none => out
+         | some q =>
+           if qmark ∈ out then (if q = [] then out else out ++ [38] ++ q)
+           else out ++ [qmark] ++ q) := by
+  have e : ofString "${qsa}" = dollar :: lbrace :: [113, 115, 97, 125] := by decide
+  rw [e, List.cons_append, List.cons_append, substGo_brace env dollar (by decide)]
+  have htw : cstr out = out := cstr_eq_self out hnul
+  simp only [substExt, List.cons_append, List.nil_append]
+  simp only [extGo, startsWith, sEsc, sNo, sTo, sUrlDot, sQsa, ofString, isDigit, rbrace]
+  simp [qsaAppend, htw, burlAppend_zero]
+  cases env.url.query with
+  | none => simp
+  | some q =>
+    by_cases hq : qmark ∈ out <;> by_cases hqe : q = [] <;> simp [hq, hqe]
+
+example : subst ⟨⟨[], []⟩, none, ⟨none, none, 80, ofString "/x?a=1", some (ofString "a=1")⟩⟩
+    (ofString "/y?z${qsa}") = ofString "/y?z&a=1" := by decide
+example : subst ⟨⟨[], []⟩, none, ⟨none, none, 80, ofString "/x?a=1", some (ofString "a=1")⟩⟩
+    (ofString "/y${qsa}") = ofString "/y?a=1" := by decide
+
+/-- `${url.scheme}`, `${url.authority}`, `${url.port}`, `${url.path}`, `${url.query}` insert the
+    corresponding part of the request URL; the path is the request-target up to the first '?' -/
+theorem c20_url_parts (env : Env) (t out : Bytes) :
+    substGo env (ofString "${url.scheme}" ++ t) 0 out = substGo env t 0 (out ++ env.url.scheme.getD []) ∧
+    substGo env (ofString "${url.authority}" ++ t) 0 out = substGo env t 0 (out ++ env.url.authority.getD []) ∧
+    substGo env (ofString "${url.port}" ++ t) 0 out = substGo env t 0 (out ++ natToDec env.url.port) ∧
+    substGo env (ofString "${url.path}" ++ t) 0 out =
+      substGo env t 0 (out ++ env.url.path.takeWhile (· ≠ qmark)) ∧
+    substGo env (ofString "${url.query}" ++ t) 0 out = substGo env t 0 (out ++ env.url.query.getD []) := by
+  have e1 : ofString "${url.scheme}" = dollar :: lbrace :: [117, 114, 108, 46, 115, 99, 104, 101, 109, 101, 125] := by decide
+  have e2 : ofString "${url.authority}" =
+      dollar :: lbrace :: [117, 114, 108, 46, 97, 117, 116, 104, 111, 114, 105, 116, 121, 125] := by decide
+  have e3 : ofString "${url.port}" = dollar :: lbrace :: [117, 114, 108, 46, 112, 111, 114, 116, 125] := by decide
+  have e4 : ofString "${url.path}" = dollar :: lbrace :: [117, 114, 108, 46, 112, 97, 116, 104, 125] := by decide
+  have e5 : ofString "${url.query}" = dollar :: lbrace :: [117, 114, 108, 46, 113, 117, 101, 114, 121, 125] := by decide
+  refine ⟨?_, ?_, ?_, ?_, ?_⟩
+  · rw [e1, List.cons_append, List.cons_append, substGo_brace env dollar (by decide)]
+    simp only [substExt, List.cons_append, List.nil_append]
+    simp only [extGo, startsWith, sEsc, sNo, sTo, sUrlDot, sScheme, ofString, isDigit, rbrace]
+    cases env.url.scheme <;> simp [burlAppend_zero]
+  · rw [e2, List.cons_append, List.cons_append, substGo_brace env dollar (by decide)]
+    simp only [substExt, List.cons_append, List.nil_append]
+    simp only [extGo, startsWith, sEsc, sNo, sTo, sUrlDot, sScheme, sAuthority, ofString, isDigit, rbrace]
+    cases env.url.authority <;> simp [burlAppend_zero]
+  · rw [e3, List.cons_append, List.cons_append, substGo_brace env dollar (by decide)]
+    simp only [substExt, List.cons_append, List.nil_append]
+    simp only [extGo, startsWith, sEsc, sNo, sTo, sUrlDot, sScheme, sAuthority, sPort, ofString, isDigit, rbrace]
+    simp
+  · rw [e4, List.cons_append, List.cons_append, substGo_brace env dollar (by decide)]
+    simp only [substExt, List.cons_append, List.nil_append]
+    simp only [extGo, startsWith, sEsc, sNo, sTo, sUrlDot, sScheme, sAuthority, sPort, sPath, ofString, isDigit, rbrace]
+    simp [burlAppend_zero]
+  · rw [e5, List.cons_append, List.cons_append, substGo_brace env dollar (by decide)]
+    simp only [substExt, List.cons_append, List.nil_append]
+    simp only [extGo, startsWith, sEsc, sNo, sTo, sUrlDot, sScheme, sAuthority, sPort, sPath, sQuery, ofString,
+               isDigit, rbrace]
+    cases env.url.query <;> simp [burlAppend_zero]
+
+example : subst ⟨⟨[], []⟩, none, ⟨some (ofString "https"), some (ofString "h.example"), 8443, ofString "/p/q?x=1",
+                                   some (ofString "x=1")⟩⟩
+    (ofString "${url.scheme}://${url.authority}:${url.port}${url.path}?${url.query}")
+    = ofString "https://h.example:8443/p/q?x=1" := by decide
+
+/-! ## rewrite-once / rewrite-repeat -/
+
+/-- The re-dispatch loop of url.rewrite-repeat is bounded for *every* rule list and every
+    behaviour of the regular expressions: it ends within 102 calls of process_rewrite_rules
+    (more fuel never changes the outcome) after at most 101 rewrites. -/
+theorem c20_repeat_bounded (matcher : Bytes → List MatchRes) (templates : List Bytes) (repeatIdx : Nat)
+    (cond : Option Caps) (opts : Opts) (scheme authority : Option Bytes) (port : Nat) (target : Bytes)
+    (k : Nat) :
+    rwRun matcher templates repeatIdx cond opts scheme authority port (102 + k) target none 0 =
+      rwRun matcher templates repeatIdx cond opts scheme authority port 102 target none 0 ∧
+    rwRun matcher templates repeatIdx cond opts scheme authority port 102 target none 0 ≠ .outOfFuel ∧
+    (rwRun matcher templates repeatIdx cond opts scheme authority port 102 target none 0).rewrites ≤ 101 := by
+  have := rwRun_bounded matcher templates repeatIdx cond opts scheme authority port 102 target none 0 k
+    (by intro st h; cases h) (by simp [rwBudget])
+  simpa [rwRewritesLeft] using this
+
+/-- the bound is reached: a rewrite-repeat rule that always matches is stopped by the loop limit -/
+example : rwRun (fun _ => [.matched [some (0, 1)]]) [ofString "/x"] 0 none ⟨0⟩ none none 80 200 (ofString "/a") none 0
+    = .failed .loopError 101 := by decide
+
+/-- url.rewrite-once: once a rule below `repeatIdx` has been applied, the request is not
+    rewritten again — the next pass through mod_rewrite returns without consulting any rule
+    (HANDLER_GO_ON; or the loop-limit error if the limit is exhausted at that very moment) -/
+theorem c20_rewrite_once (repeatIdx : Nat) (cond : Option Caps) (url : UrlParts)
+    (rules : List (Bytes × MatchRes)) (h h' : Option RwState) (t' : Bytes) (m : Nat)
+    (hcall : rwCall repeatIdx cond url rules h = (.comeback t', h'))
+    (hm : process cond url url.path rules = .finished m t') (honce : m < repeatIdx) :
+    ∀ (url2 : UrlParts) (rules2 : List (Bytes × MatchRes)),
+      (rwCall repeatIdx cond url2 rules2 h').1 = .goOn ∨
+      (rwCall repeatIdx cond url2 rules2 h').1 = .loopError := by
+  intro url2 rules2
+  have key : ∃ c, h' = some { count := c, finished := true } := by
+    unfold rwCall at hcall
+    cases h with
+    | none =>
+      simp only [Option.map_none] at hcall
+      obtain ⟨_, m', f, hp, hh, hf⟩ := rwCall_body_comeback hcall
+      rw [hm] at hp
+      simp only [ProcRes.finished.injEq] at hp
+      have : f = true := hf (hp.1 ▸ honce)
+      subst this
+      exact ⟨_, hh⟩
+    | some st =>
+      simp only [Option.map_some] at hcall
+      split at hcall
+      · simp at hcall
+      · split at hcall
+        · simp at hcall
+        · obtain ⟨_, m', f, hp, hh, hf⟩ := rwCall_body_comeback hcall
+          rw [hm] at hp
+          simp only [ProcRes.finished.injEq] at hp
+          have : f = true := hf (hp.1 ▸ honce)
+          subst this
+          exact ⟨_, hh⟩
+  obtain ⟨c, hc⟩ := key
+  subst hc
+  unfold rwCall
+  simp only [Option.map_some]
+  by_cases hl : c + 1 > rwLoopLimit
+  · right; simp [hl]
+  · left; simp [hl]
+
+example : rwRun (fun t => if t = ofString "/a" then [.matched [some (0, 2)], .nomatch]
+                          else [.nomatch, .matched [some (0, 2)]])
+    [ofString "/b", ofString "/c"] 1 none ⟨0⟩ none none 80 200 (ofString "/a") none 0
+    = .served (ofString "/b") 1 := by decide
+example : rwRun (fun t => if t = ofString "/a" then [.matched [some (0, 2)], .nomatch]
+                          else if t = ofString "/b" then [.nomatch, .matched [some (0, 2)]] else [.nomatch, .nomatch])
+    [ofString "/b", ofString "/c"] 0 none ⟨0⟩ none none 80 200 (ofString "/a") none 0
+    = .served (ofString "/c") 2 := by decide
 
 end LtVerif.C20
